@@ -53,15 +53,19 @@ type cursorProof struct {
 }
 
 type fiState struct {
-	sym   map[string]lin
-	val   map[ssa.Value]lin
-	lens  map[ssa.Value]lin
-	facts []lin
-	cut   map[*ssa.BasicBlock]bool
+	pending map[ssa.Value]*fiPost // error results of calls whose callee has a success postcondition
+	sym     map[string]lin
+	val     map[ssa.Value]lin
+	lens    map[ssa.Value]lin
+	facts   []lin
+	cut     map[*ssa.BasicBlock]bool
 }
 
 func (s *fiState) clone() *fiState {
-	n := &fiState{sym: map[string]lin{}, val: map[ssa.Value]lin{}, lens: map[ssa.Value]lin{}, cut: map[*ssa.BasicBlock]bool{}}
+	n := &fiState{sym: map[string]lin{}, val: map[ssa.Value]lin{}, lens: map[ssa.Value]lin{}, cut: map[*ssa.BasicBlock]bool{}, pending: map[ssa.Value]*fiPost{}}
+	for k, v := range s.pending {
+		n.pending[k] = v
+	}
 	for k, v := range s.sym {
 		n.sym[k] = v
 	}
@@ -81,7 +85,15 @@ func (s *fiState) clone() *fiState {
 func constLin(k int64) lin   { return lin{coef: map[ssa.Value]int64{}, k: k} }
 func symLin(v ssa.Value) lin { return lin{coef: map[ssa.Value]int64{v: 1}} }
 
+type fiPost struct {
+	cond  ssa.Value
+	truth bool
+	blk   *ssa.BasicBlock
+	desc  string
+}
+
 type fiRun struct {
+	post    map[*ssa.Function]*fiPost
 	c       *Ctx
 	fn      *ssa.Function
 	bc      *boundsCtx
@@ -506,6 +518,12 @@ func (r *fiRun) interp(b *ssa.BasicBlock, from int, st *fiState) {
 			}
 			st.facts = append([]lin(nil), st.facts...)
 			r.havoc(st)
+			if po := r.post[callee]; po != nil {
+				if st.pending == nil {
+					st.pending = map[ssa.Value]*fiPost{}
+				}
+				st.pending[n] = po
+			}
 		case *ssa.Return:
 			r.checkInv(st, b, fmt.Sprintf("at the return %s", r.c.pos(n.Pos())))
 			r.proof.nPaths++
@@ -514,6 +532,16 @@ func (r *fiRun) interp(b *ssa.BasicBlock, from int, st *fiState) {
 			for k, s := range b.Succs {
 				ns := st.clone()
 				ns.facts = append(ns.facts, r.condFacts(st, n.Cond, k == 0, b)...)
+				if x, nonNil, ok := nilTest(n.Cond); ok && x != nil {
+					// on the edge where the callee's error is nil, its success postcondition holds for the current fields
+					src := x
+					if ex, isEx := x.(*ssa.Extract); isEx {
+						src = ex.Tuple
+					}
+					if po := st.pending[src]; po != nil && (k == 0) != nonNil {
+						ns.facts = append(ns.facts, r.postFacts(ns, po, b)...)
+					}
+				}
 				// an infeasible edge need not be followed
 				if r.implied(ns, constLin(1), b) {
 					continue
@@ -526,6 +554,21 @@ func (r *fiRun) interp(b *ssa.BasicBlock, from int, st *fiState) {
 			return
 		}
 	}
+}
+
+// postFacts: the callee's success postcondition evaluated over the caller's current field terms.
+func (r *fiRun) postFacts(st *fiState, po *fiPost, at *ssa.BasicBlock) []lin {
+	tmp := &fiState{sym: st.sym, val: map[ssa.Value]lin{}, lens: map[ssa.Value]lin{}, facts: st.facts, cut: st.cut}
+	for _, ins := range po.blk.Instrs {
+		if u, ok := ins.(*ssa.UnOp); ok && u.Op == token.MUL {
+			if p, ok := r.c.decoderPath(u.X); ok {
+				if l, tracked := st.sym[p]; tracked {
+					tmp.val[u] = l
+				}
+			}
+		}
+	}
+	return r.condFacts(tmp, po.cond, po.truth, at)
 }
 
 func (r *fiRun) preHolds(st *fiState, callee *ssa.Function, pr *fiPre, at *ssa.BasicBlock) bool {
@@ -660,6 +703,75 @@ func (c *Ctx) cursorProof() *cursorProof {
 			}
 		}
 	}
+	// success postconditions: every nil-error return of a cursor-changing function sits directly on one
+	// edge of a test over freshly loaded cursor fields (the exit test of a `for i == j { fill }` helper)
+	post := map[*ssa.Function]*fiPost{}
+	for fn := range mods {
+		res := fn.Signature.Results()
+		if len(fn.Blocks) == 0 || res.Len() == 0 || !isErrorType(res.At(res.Len()-1).Type()) {
+			continue
+		}
+		var cand *fiPost
+		okAll := true
+		nret := 0
+		for _, ret := range c.successReturns(fn) {
+			nret++
+			rb := ret.Block()
+			if len(rb.Instrs) != 1 || len(rb.Preds) != 1 {
+				okAll = false
+				break
+			}
+			p := rb.Preds[0]
+			ifi, isIf := p.Instrs[len(p.Instrs)-1].(*ssa.If)
+			if !isIf {
+				okAll = false
+				break
+			}
+			bo, isBin := ifi.Cond.(*ssa.BinOp)
+			if !isBin {
+				okAll = false
+				break
+			}
+			// both operands loaded in p itself, no store or modifying call in p
+			fresh := true
+			for _, op := range []ssa.Value{bo.X, bo.Y} {
+				ld, isLd := op.(*ssa.UnOp)
+				if _, isC := op.(*ssa.Const); isC {
+					continue
+				}
+				if !isLd || ld.Op != token.MUL || ld.Block() != p {
+					fresh = false
+					continue
+				}
+				if pth, ok := c.decoderPath(ld.X); !ok || !tracked[pth] {
+					fresh = false
+				}
+			}
+			for _, ins := range p.Instrs {
+				if _, isSt := ins.(*ssa.Store); isSt {
+					fresh = false
+				}
+				if ci, isCall := ins.(ssa.CallInstruction); isCall {
+					if g := ci.Common().StaticCallee(); g != nil && mods[g] {
+						fresh = false
+					}
+				}
+			}
+			if !fresh {
+				okAll = false
+				break
+			}
+			np := &fiPost{cond: ifi.Cond, truth: p.Succs[0] == rb, blk: p, desc: fmt.Sprintf("%s is %v", stripAddrs(pathOf(ifi.Cond)), p.Succs[0] == rb)}
+			if cand != nil && (cand.cond != np.cond || cand.truth != np.truth) {
+				okAll = false
+				break
+			}
+			cand = np
+		}
+		if okAll && cand != nil && nret > 0 {
+			post[fn] = cand
+		}
+	}
 	// who stores the limit: that function starts from the zero decoder
 	limitFn := map[*ssa.Function]bool{}
 	for _, fn := range storers {
@@ -742,8 +854,8 @@ func (c *Ctx) cursorProof() *cursorProof {
 		}
 	}()
 	for _, fn := range storers {
-		r := &fiRun{c: c, fn: fn, bc: c.newBounds(fn), proof: cp, mods: mods, pre: pre, bufLen: cp.bufLen, budget: 4000, skipBlk: map[*ssa.BasicBlock]bool{}}
-		st := &fiState{sym: map[string]lin{}, val: map[ssa.Value]lin{}, lens: map[ssa.Value]lin{}, cut: map[*ssa.BasicBlock]bool{}}
+		r := &fiRun{c: c, fn: fn, bc: c.newBounds(fn), proof: cp, mods: mods, pre: pre, post: post, bufLen: cp.bufLen, budget: 4000, skipBlk: map[*ssa.BasicBlock]bool{}}
+		st := &fiState{sym: map[string]lin{}, val: map[ssa.Value]lin{}, lens: map[ssa.Value]lin{}, cut: map[*ssa.BasicBlock]bool{}, pending: map[ssa.Value]*fiPost{}}
 		if limitFn[fn] {
 			for _, f := range cursorFields {
 				st.sym[f] = constLin(0) // fresh decoder (C10-R4 per-file state decides that premise)
